@@ -486,6 +486,7 @@ func genPanicSites(repo string) (string, error) {
 		if fd == nil || fd.Body == nil {
 			continue
 		}
+		sh.opq = 0 // opaque names are local to a function: an edit elsewhere does not rename them
 		t := struct{ pkg, name string }{strings.SplitN(k, ".", 2)[0], k[strings.LastIndex(k, ".")+1:]}
 		w := &psWalker{sh: sh, pkg: t.pkg, short: psShortKey(k), fd: fd, types: map[string]psType{}, ver: map[string]int{}, next: map[string]int{}, nilable: map[string]bool{}, derefDone: map[string]psDeref{}, used: map[string]bool{}}
 		if fd.Recv != nil {
